@@ -72,24 +72,43 @@ def run(ck):
         size_ok = bool(reads) and len(reads[0].args) == 2 and norm(reads[0].args[1]) == str(n // 8)
         branch_ok = False
         detail = ""
-        for i_ in [x for x in walk_body(fn) if isinstance(x, ast.If)]:
-            p = cmp_parts(i_.test)
-            if p and p[1] == "==" and "LITTLE_ENDIAN" in (norm(p[0]), norm(p[2])):
-                def fmt_of(stmts):
-                    for s in stmts:
-                        if isinstance(s, ast.Return) and isinstance(s.value, ast.Call):
-                            nm = callee_attr(s.value)
-                            lam = um.assigns.get(nm)
-                            if isinstance(lam, ast.Lambda):
-                                for c in walk_local(lam.body):
-                                    if isinstance(c, ast.Call) and dotted(c.func) == "struct.unpack" and isinstance(c.args[0], ast.Constant):
-                                        return nm, c.args[0].value
-                    return None, None
-                ln, lf = fmt_of(i_.body)
-                bn, bf = fmt_of(i_.orelse)
-                if lf and bf:
-                    branch_ok = lf[0] == "<" and bf[0] == ">" and FMT.get(lf[-1]) == n // 8 and FMT.get(bf[-1]) == n // 8
-                    detail = "little -> %s %r, big -> %s %r" % (ln, lf, bn, bf)
+        # per path of the function (whatever the layout of the test: two arms, guard + fall-through, conditional expression):
+        # the byte order known on the path and the unpacking helper returned
+        from sa import symval as _sv
+
+        def fmt_of_call(v):
+            if isinstance(v, ast.Call):
+                nm = callee_attr(v)
+                lam = um.assigns.get(nm)
+                if isinstance(lam, ast.Lambda):
+                    for c in walk_local(lam.body):
+                        if isinstance(c, ast.Call) and dotted(c.func) == "struct.unpack" and isinstance(c.args[0], ast.Constant):
+                            return nm, c.args[0].value
+            return None, None
+        seen_ = {}
+        for p_ in _sv.paths(fn.body):
+            if p_.kind != "return" or p_.value is None:
+                continue
+            order = None
+            for t_, b_ in p_.conds:
+                pp = cmp_parts(t_)
+                if pp and pp[1] in ("==", "!=") and ("LITTLE_ENDIAN" in (norm(pp[0]), norm(pp[2])) or "BIG_ENDIAN" in (norm(pp[0]), norm(pp[2]))):
+                    little = "LITTLE_ENDIAN" in (norm(pp[0]), norm(pp[2]))
+                    holds = b_ if pp[1] == "==" else not b_
+                    order = "little" if little == holds else "big"
+            vals = [p_.value]
+            if isinstance(p_.value, ast.IfExp):
+                pp = cmp_parts(p_.value.test)
+                if pp and pp[1] == "==" and "LITTLE_ENDIAN" in (norm(pp[0]), norm(pp[2])):
+                    seen_["little"] = fmt_of_call(p_.value.body)
+                    seen_["big"] = fmt_of_call(p_.value.orelse)
+                    continue
+            if order is not None:
+                seen_[order] = fmt_of_call(p_.value)
+        (ln, lf), (bn, bf) = seen_.get("little", (None, None)), seen_.get("big", (None, None))
+        if lf and bf:
+            branch_ok = lf[0] == "<" and bf[0] == ">" and FMT.get(lf[-1]) == n // 8 and FMT.get(bf[-1]) == n // 8
+            detail = "little -> %s %r, big -> %s %r" % (ln, lf, bn, bf)
         ck.ob("R2", "bin_stream.get_u%d" % n, size_ok and branch_ok, bm.where(fn),
               "get_u%d must read %d byte(s) and unpack '<'/'>' formats of that size (%s)" % (n, n // 8, detail))
 
